@@ -677,7 +677,12 @@ def check_pair(ctx, case):
         return
     for stack in case["stacks"]:
         rs = W0.real_stack(stack)
-        a, b = bool(cl.check_loc_stack(MED, rs)), bool(cr.check_loc_stack(MED, rs))
+        try:
+            a, b = bool(cl.check_loc_stack(MED, rs)), bool(cr.check_loc_stack(MED, rs))
+        except Exception as e:  # noqa: BLE001
+            ctx.violation("check_crashed", (type(e).__name__, exc_site(e)), {**case, "stacks": [stack]},
+                          f"{show(lhs)} / {show(rhs)} on {show_stack(stack)}: {describe(e)}")
+            continue
         ctx.case(["pair", lhs, rhs, stack], True, sample={"law": case["law"], "lhs": show(lhs), "rhs": show(rhs)},
                  labels=["part:law_replay"])
         if a != b:
@@ -791,8 +796,13 @@ def check_e2e(ctx, case):  # noqa: C901, PLR0912, PLR0915
         if got == expected:
             continue
         # ---- disagreement: describe it through the first datum whose count differs
-        for datum in sorted(set(got) | set(expected), key=lambda d: min(
-                [c[0] for c in calls if c[3] == d], default=-1)):
+        by_datum = {}
+        for c in calls:
+            by_datum.setdefault(c[3], []).append(c[0])
+        # in call order, `None` last (it is one shared object for all positions holding it), so that a wrongly
+        # replaced ancestor is reported rather than what it hides
+        for datum in sorted(set(got) | set(expected),
+                            key=lambda d: (d == id(None), min(by_datum.get(d, [-1])))):
             if got.get(datum, 0) == expected.get(datum, 0):
                 continue
             group = [i for i, c in enumerate(calls) if c[3] == datum]
@@ -801,7 +811,10 @@ def check_e2e(ctx, case):  # noqa: C901, PLR0912, PLR0915
                     f"{expected.get(datum, 0)} for the datum at {where}")
             culprit = None
             for i in group:  # does the checker itself (outside any retort) already disagree on the real stack?
-                direct = bool(make_checker_world(expr, world).check_loc_stack(MED, H.LocStack(*calls[i][2])))
+                try:
+                    direct = bool(make_checker_world(expr, world).check_loc_stack(MED, H.LocStack(*calls[i][2])))
+                except Exception:  # noqa: BLE001  -- a crashing checker disagrees with every verdict
+                    direct = None
                 if direct != verdicts[i]:
                     culprit = i
                     break
@@ -841,6 +854,15 @@ def _exec_classes(src):
 
 
 def check_probe(ctx, case):
+    try:
+        _check_probe(ctx, case)
+    except Exception as e:  # noqa: BLE001  -- the probes only run documented examples on valid data
+        if exc_site(e) == "?":
+            raise          # not inside adaptix: a harness bug
+        ctx.violation("probe_crashed", (case["name"], type(e).__name__, exc_site(e)), case, describe(e))
+
+
+def _check_probe(ctx, case):
     name = case["name"]
     log = []
 
